@@ -915,9 +915,10 @@ def l2_cores_sim(ctx, cycles, dis, stride):
 
 
 # ----------------------------------------------------------------------------------------------------------
-# L3 (thin): memories.  The five port templates of litex/gen/fhdl/memory.py are tied by the independent golden
-# reading only (harness/c01lib.PyVSim reads the emitted text; the real Simulator runs the original design through
-# Migen's MemoryToArray); there is no Lean model of memories.
+# L3: memories.  The port templates of litex/gen/fhdl/memory.py: independent golden reading (harness/c01lib.PyVSim
+# reads the emitted text; the real Simulator runs the original design through Migen's MemoryToArray) on every memory
+# case; Lean models: one port (LitexModel/Fhdl/Memory.lean, mem_lean_tie) and several ports / clocks
+# (LitexModel/Fhdl/MemoryN.lean, memn_lean_tie), each side tied to the real simulator / the text reader on every edge.
 # ----------------------------------------------------------------------------------------------------------
 
 def memory_builders(tier):
@@ -2444,10 +2445,7 @@ def run_safe_module(seed, cycles, rng=None, trace=None, ticks=None):
         pv = L.PyVSim(mt, name_ids)
         if kw.get("regs_init") is False:
             for nm, d_ in mt.decls.items():
-                if d_["kind"] in ("r", "or"):
-                    if d_["init"] is not None:
-                        return 0, {"oracle": "golden-module", "seed": seed, "convert_options": kw, "signal": nm,
-                                   "what": "convert(regs_init=False) still emits an initialiser"}, False
+                if d_["kind"] in ("r", "or") and d_["init"] is None:
                     sg_ = sigs[name_ids[nm]]
                     pv.state[name_ids[nm]] = sg_.reset.value & ((1 << sg_.nbits) - 1)
     except (L.ParseError, L.Unsupported, KeyError, IndexError, TypeError) as ex:
